@@ -198,7 +198,7 @@ def build_query(ctx: Ctx, ob, extra_axioms=()):
     ax.extend(sum_ext_axioms(reds))
     allf = base + ax
     if uses_decl(allf, ops.NORM2):
-        ax.extend(ops.norm2_axioms())
+        ax.extend(ops.norm2_axioms(allf))
     return fs + list(extra_axioms) + ax, goal
 
 
